@@ -323,7 +323,20 @@ func checkC20(p *core.Program, r *core.Report) {
 			continue
 		}
 		usesHandler := false
-		for _, a := range t.Args {
+		var flat []*tf.Term
+		for _, a0 := range t.Args {
+			// the handler may be wrapped by an in-repo middleware: look inside the argument term
+			tf.Walk(a0, func(x *tf.Term) bool {
+				flat = append(flat, x)
+				return true
+			})
+		}
+		heReg, _ := proveHandlerEntry(p)
+		for _, a := range flat {
+			// the closure an in-repo middleware returns around the handler (resolved by proveHandlerEntry)
+			if a.K == tf.KOpaque && heReg != nil && heReg.Fn != heReg.Inner && a.Name == "closure "+heReg.Fn.Name() {
+				usesHandler = true
+			}
 			if a.K == tf.KRecord && strings.HasSuffix(a.Name, "proveHandler") || (a.K == tf.KRecord && hasServeHTTP(p, a.Type)) {
 				usesHandler = true
 			}
@@ -351,15 +364,16 @@ func checkC20(p *core.Program, r *core.Report) {
 	r.Floor("/prove registrations", 1)
 	ix := indexFuncs(p)
 	// O20.4: one status per request (the delegator records the last WriteHeader; two calls mis-count the response)
-	if hfn, _, _ := proveHandlerFn(p); hfn != nil {
+	if he, _ := proveHandlerEntry(p); he != nil {
+		hfn := he.Inner
 		if hobj, ok := hfn.Object().(*types.Func); ok {
 			if hu, ok := ix.decls[hobj]; ok {
 				if w := respWriterParam(hu); w != nil {
 					r.AnalysedFn(hu.Name)
 					_, _ = ix, w
-					if hfn := p.SSA.FuncValue(hobj); hfn != nil {
-						checkResponsePaths(p, r, hfn, provingSystemType(p), modeConstants(p), "O20.4", "")
-					}
+					respEntryBind = he.Bind
+					checkResponsePaths(p, r, he.Fn, provingSystemType(p), modeConstants(p), "O20.4", "")
+					respEntryBind = nil
 				}
 			}
 		}
